@@ -1,6 +1,7 @@
 import GrVerif.Proofs.Borrow
 import GrVerif.Props.C13
 import GrVerif.Props.C13Eq
+import GrVerif.Proofs.GlyphLoad
 /-!
 # C10 — face options change resource behaviour, never results   (partial)
 
@@ -13,6 +14,8 @@ The two option bits that change how data is obtained are modelled:
 * `gr_face_cacheCmap`: the cached and the direct cmap lookup are modelled in `Model/Cmap.lean`; `cmap_option_does_not_change_glyphs` –
   on a font whose cmap ranges are sorted and disjoint (a well-formed font) both give the same glyph for every code point (C13's
   `cached_lookup_is_direct_lookup`), and neither reads outside the table on any font.
+
+* `gr_face_preloadGlyphs` on the bytes of `Gloc`/`Glat` (attributes and bounding boxes): `preloading_changes_no_glyph_or_box`.
 
 "Same glyph count, features, languages, character support and identical segments for all option values and both table
 sources" as a whole is decided on the implementation (`tools/props/c10.py`).
@@ -52,6 +55,17 @@ theorem preload_fails_iff_some_glyph_unreadable {G : Type} (load : Nat → Optio
 
 example : preload (fun g => if g = 2 then none else some g) 4 = none := by decide
 example : (preload (fun g => some g) 3).map (·.cache) = some [some 0, some 1, some 2] := by decide
+
+/-- **`gr_face_preloadGlyphs` on the real tables** (`Model/GlyphLoad.lean`: `GlyphCache`'s constructor and `glyph(gid)` over the bytes of `Gloc` and
+`Glat`, attributes and bounding boxes): when the preloading constructor builds a cache, and every glyph's box can be read where the Glat table
+carries boxes (a well-formed font), the cache that loads on demand answers every sequence of glyph requests with the same glyphs, attributes and
+boxes.  In the pinned tree this failed on a font whose glyphs have bounding octaboxes but no sub-boxes: the preloading constructor read the
+boxes only `if (numsubs > 0 && _boxes)` (`fix: a preloading glyph cache …` in /repo; the model is the repaired behaviour). -/
+theorem preloading_changes_no_glyph_or_box (gloc glat : List Nat) (ngg : Nat) (gids : List Nat) (cp : Loader.GlyphCacheM)
+    (hp : Loader.glyphCache gloc glat ngg true gids = .ok (some cp))
+    (hwf : ∀ T, Loader.readGlyphTables gloc glat ngg = .ok (some T) → T.hasBoxes = true →
+      ∃ bs, Loader.preloadBoxes T gloc glat (max ngg T.numGlyphsAttr) 0 = .ok (some bs)) :
+    Loader.glyphCache gloc glat ngg false gids = .ok (some cp) := Loader.glyphCache_preload_eq_lazy gloc glat ngg gids cp hp hwf
 
 /-- `gr_face_cacheCmap` changes how a code point is looked up, never the glyph: on a cmap with sorted, disjoint ranges the face made with the
 option (cache built at creation) and the face made without it (table searched on every request) map every Unicode code point to the
